@@ -87,7 +87,7 @@ func doPacket(e *dpadv.Env, a *dpadv.APkt, r *rand.Rand) {
 	v0 := r.Intn(4) // payload size / extension headers / staleness flavour of the first concretisation
 	for v := 0; v < *variants; v++ {
 		w := v0 + v
-		o := dpadv.BuildOpts{Payload: []int{16, 0, 100, 700}[w%4], HBH: w%4 == 2, E2E: w%4 >= 2, Stale: w % 2, Rng: r}
+		o := dpadv.BuildOpts{Payload: []int{16, 0, 100, 700}[w%4], HBH: w%4 == 2, E2E: w%4 >= 2, Stale: (w + r.Intn(2)*2) % 4, Rng: r}
 		res := runOne(e, a, o)
 		if res == nil || !*c09 || res.O.Disp != "slow" || v > 0 {
 			continue
